@@ -264,6 +264,52 @@ func (en *env) runRanges(r *evid.Run) {
 	}
 }
 
+// runTableSpellings: names that are NOT the existing table "t" but could be taken for it by a lookup
+// that normalises paths or trims: every KV method must answer NotFound and change nothing.
+func (en *env) runTableSpellings(r *evid.Run) {
+	ctx := context.Background()
+	w := want{codes: []codes.Code{codes.NotFound}, reason: "unknown table"}
+	for _, name := range []string{"t/", "t//", "t/.", "./t", "/t", "x/../t", "t ", " t", "T", "t\x00", "tables/t"} {
+		tb := []byte(name)
+		reqs := []struct {
+			kind     string
+			mutating bool
+			f        func() error
+		}{
+			{"Range", false, func() error { _, e := en.kv.Range(ctx, &regattapb.RangeRequest{Table: tb, Key: []byte("k")}); return e }},
+			{"IterateRange", false, func() error {
+				c2, cancel := context.WithTimeout(ctx, 10*time.Second)
+				defer cancel()
+				return en.kv.IterateRange(&regattapb.RangeRequest{Table: tb, Key: []byte("k")}, &recRange{ctx: c2})
+			}},
+			{"Put", true, func() error {
+				_, e := en.kv.Put(ctx, &regattapb.PutRequest{Table: tb, Key: []byte("intruder"), Value: []byte("x")})
+				return e
+			}},
+			{"DeleteRange", true, func() error {
+				_, e := en.kv.DeleteRange(ctx, &regattapb.DeleteRangeRequest{Table: tb, Key: []byte{0}, RangeEnd: []byte{0}})
+				return e
+			}},
+			{"Txn", true, func() error {
+				_, e := en.kv.Txn(ctx, &regattapb.TxnRequest{Table: tb, Success: []*regattapb.RequestOp{{Request: &regattapb.RequestOp_RequestPut{RequestPut: &regattapb.RequestOp_Put{Key: []byte("intruder"), Value: []byte("x")}}}}})
+				return e
+			}},
+		}
+		for _, rq := range reqs {
+			desc := fmt.Sprintf("%s{table=%q (not the existing table \"t\")}", rq.kind, name)
+			evid.Journal("C16", desc)
+			err, p := call(rq.f)
+			r.Outcome(desc+status.Code(err).String(), true)
+			r.AddExtra("table_spelling_requests", 1)
+			// a request that is answered OK here has reached some table it did not name: the state
+			// check applies whatever the method
+			for _, vv := range en.after(rq.kind, desc, w, err, p, false) {
+				r.Violate(vv.sig, vv.detail, map[string]any{"kind": rq.kind, "request": desc})
+			}
+		}
+	}
+}
+
 func (en *env) runPuts(r *evid.Run) {
 	ctx := context.Background()
 	for _, t := range tables {
@@ -589,7 +635,7 @@ func (en *env) runTables(r *evid.Run) {
 
 func Run(r *evid.Run) {
 	r.Check = "c16"
-	r.Rule("per-field domain products through the registered codec into the real KVServer / TablesServer / ReadonlyTablesServer over a real engine: Range and IterateRange = table{empty,existing,unknown} x key{empty,k,1024B,1025B} x range_end{absent,present-empty,wildcard,z,1025B} x limit{-1,0,1} x keys_only x count_only x linearizable x revision filter{none, each of 4}; Put = table x key x value{empty,v,2MiB,2MiB+1} x prev_kv; DeleteRange = table x key x range_end x prev_kv x count; Txn = table x <=1 of 12 predicates x <=2 of 24 nested operations (reads/puts/deletes over the same domains, empty oneof, out-of-enum comparison) in both branches, and for lists that must be refused also in the success branch only and in the failure branch only; Tables create/delete/list with names {empty,new,existing,a/b,sys/idseq,t/lease,../x,*} on leader and follower wiring. Classifier from the documented constraints; after every refused or read-only request the table list and the full content of every table must be unchanged; a handler panic or a dead process is a violation. Non-trivial: every request; distinct = distinct (request, status)")
+	r.Rule("per-field domain products through the registered codec into the real KVServer / TablesServer / ReadonlyTablesServer over a real engine: Range and IterateRange = table{empty,existing,unknown} x key{empty,k,1024B,1025B} x range_end{absent,present-empty,wildcard,z,1025B} x limit{-1,0,1} x keys_only x count_only x linearizable x revision filter{none, each of 4}; Put = table x key x value{empty,v,2MiB,2MiB+1} x prev_kv; DeleteRange = table x key x range_end x prev_kv x count; Txn = table x <=1 of 12 predicates x <=2 of 24 nested operations (reads/puts/deletes over the same domains, empty oneof, out-of-enum comparison) in both branches, and for lists that must be refused also in the success branch only and in the failure branch only; every KV method with 11 table names that are not the existing table but could be taken for it (trailing or leading slash, dot segments, case, blanks, NUL): NotFound and nothing changed; Tables create/delete/list with names {empty,new,existing,a/b,sys/idseq,t/lease,../x,*} on leader and follower wiring. Classifier from the documented constraints; after every refused or read-only request the table list and the full content of every table must be unchanged; a handler panic or a dead process is a violation. Non-trivial: every request; distinct = distinct (request, status)")
 	eng, err := engx.Start(engx.Opts{})
 	if err != nil {
 		fmt.Println("INFRA: engine start failed:", err)
@@ -612,6 +658,7 @@ func Run(r *evid.Run) {
 		}
 	}
 	en.reseed()
+	en.runTableSpellings(r)
 	en.runRanges(r)
 	en.runPuts(r)
 	en.cleanup()
